@@ -15,6 +15,10 @@ requests
                                  suffix `a` in a session that has ADD-PATH for the family (path ids in
                                  the NLRI, builder of the ADD-PATH NLRI type); `attrs` must not hold
                                  attributes 14 / 15
+  nl2 <fam> <wd> <ann> <attrs>  the same in a two-octet session (`SessionConfig::legacy()`); `attrs` must
+                                 hold no attribute whose encoding depends on the AS number width
+  nlx <fam> <wd> <attrs> <ann>  the three sections of an UPDATE as given (MP attributes of any family allowed),
+                                 re-added by a builder of `fam` (not c4) in a four-octet session
 replies
   re:  rej | panic | ok D<hex>#<sum compose_len> M<hex>#<bytes_len> B<pdu hex>
        (Derr / Merr / Berr for a route that returns an error)
@@ -118,54 +122,66 @@ def hasMp : Nat → Bytes → Bool
     | none => false
     | some (_, tc, _, r) => tc.toNat == 14 || tc.toNat == 15 || hasMp f r
 
-/-- re-added NLRI of one section: composed octets and summed `compose_len` -/
-def nlSideC {α} (c : Rc.Nlri.Codec α) (bs : Bytes) : Outcome (Bytes × Nat) :=
-  match readd c bs with
-  | .ok ns =>
-    match Rc.Nlri.encAll c ns with
-    | .ok e => .ok (e, clenSum c ns)
-    | .err => .err
-    | .panic => .panic
-  | .err => .err
-  | .panic => .panic
-
-/-- the builder's NLRI type decides whether path ids are read (`typed_announcements::<_, A>`,
-update.rs:437, does not consult the session) -/
-def nlSide (f : Rc.Nlri.Fam) (ap : Bool) (bs : Bytes) : Outcome (Bytes × Nat) :=
-  if ap then nlSideC (Rc.Nlri.codecAp f) bs else nlSideC (Rc.Nlri.codec f) bs
-
-def handleNl (fi : FamInfo) (wd ann attrs : Bytes) : String :=
-  if hasMp attrs.length attrs then "bad-op" else
-  let sec : Bytes :=
-    if fi.conv then attrs
-    else
-      (if ann.isEmpty then [] else
+/-- the PDU of an `nl` / `nl2` request, as the harness builds it -/
+def nlPdu (fi : FamInfo) (wd ann attrs : Bytes) : Bytes :=
+  if fi.conv then mkPdu wd attrs ann
+  else
+    mkPdu []
+      ((if ann.isEmpty then [] else
         mpAttr 14 (be16 fi.afi ++ [UInt8.ofNat fi.safi, UInt8.ofNat fi.nh] ++ List.replicate fi.nh 1 ++ [0] ++ ann)) ++
-      (if wd.isEmpty then [] else mpAttr 15 (be16 fi.afi ++ [UInt8.ofNat fi.safi] ++ wd)) ++ attrs
-  let pdu := if fi.conv then mkPdu wd sec ann else mkPdu [] sec []
+      (if wd.isEmpty then [] else mpAttr 15 (be16 fi.afi ++ [UInt8.ofNat fi.safi] ++ wd)) ++ attrs) []
+
+/-- the harness's `cut_built`: NLRI octets of MP_UNREACH_NLRI / MP_REACH_NLRI and the other
+attributes (re-framed as they were) of a built PDU; `none` = not of that shape -/
+def cutAttrs : Nat → Bytes → Option (Bytes × Bytes × Bytes)
+  | 0, bs => if bs.isEmpty then some ([], [], []) else none
+  | g + 1, bs =>
+    if bs.isEmpty then some ([], [], []) else
+    match splitAttr bs with
+    | none => none
+    | some (fl, tc, v, r) =>
+      match cutAttrs g r with
+      | none => none
+      | some (w, a, o) =>
+        if tc.toNat = 14 then
+          match v with
+          | _ :: _ :: _ :: nh :: rest =>
+            if rest.length < nh.toNat + 1 then none else some (w, rest.drop (nh.toNat + 1) ++ a, o)
+          | _ => none
+        else if tc.toNat = 15 then
+          if v.length < 3 then none else some (v.drop 3 ++ w, a, o)
+        else
+          some (w, a, (if extBit fl then fl :: tc :: (be16 v.length ++ v) else fl :: tc :: UInt8.ofNat v.length :: v) ++ o)
+
+def cutBuilt (pdu : Bytes) : Option (Bytes × Bytes × Bytes) :=
+  match pdu.drop 19 with
+  | 0 :: 0 :: x :: y :: attrs =>
+    if pdu.length ≠ 23 + (x.toNat * 256 + y.toNat) then none else cutAttrs attrs.length attrs
+  | _ => none
+
+/-- `four = false`: the two-octet session of the `nl2` lines (`SessionConfig::legacy()`), whose
+attributes must not depend on the AS number width (K9 is judged on the `re2w` lines) -/
+def handleReadd (four : Bool) (fi : FamInfo) (pdu : Bytes) : String :=
   if pdu.length > 4096 then "bad-op" else
-  -- an ADD-PATH session: `SessionConfig::modern()` + `add_addpath_rxtx(family)`; the conventional
-  -- sections are then validated with path ids (update.rs:924, 1000: `Rc.Upd.parseUpdate`)
-  let accepted : Outcome Unit :=
-    if fi.ap then Rc.Upd.mapO (fun _ => ()) (Rc.Upd.parseUpdate ⟨true, [((fi.afi, fi.safi), .both)]⟩ pdu)
-    else Rc.Upd.mapO (fun _ => ()) (parsePdu pdu)
-  match accepted with
+  -- `SessionConfig::modern()` / `legacy()`, plus `add_addpath_rxtx(family)` for the `a` families
+  let cfg : Rc.Upd.Cfg := ⟨four, if fi.ap then [((fi.afi, fi.safi), .both)] else []⟩
+  match Rc.Upd.parseUpdate cfg pdu with
   | .err => "rej"
   | .panic => "panic"
-  | .ok _ =>
-    match mapOf sec with
+  | .ok m =>
+    -- the builder is of the NLRI type of the family, with path ids in an ADD-PATH session
+    match readdPdu cfg m fi.fam fi.ap with
     | .panic => "panic"
     | .err => "err"
-    | .ok m =>
-      match nlSide fi.fam fi.ap ann, nlSide fi.fam fi.ap wd, lenList m, encList m with
-      | .panic, _, _, _ => "panic"
-      | _, .panic, _, _ => "panic"
-      | _, _, .panic, _ => "panic"
-      | _, _, _, .panic => "panic"
-      | .ok (a, na), .ok (w, nw), .ok ml, .ok o =>
-        if nlPduLen ml fi.nh na nw > MAX_PDU then "err"
-        else s!"ok w={hexOrDash w} a={hexOrDash a} o={hexOrDash o}"
-      | _, _, _, _ => "err"
+    | .ok out =>
+      match cutBuilt out with
+      | some (w, a, o) => s!"ok w={hexOrDash w} a={hexOrDash a} o={hexOrDash o}"
+      | none => s!"ok undecodable {hexOfBytes out}"
+
+def handleNl (four : Bool) (fi : FamInfo) (wd ann attrs : Bytes) : String :=
+  if hasMp attrs.length attrs then "bad-op" else
+  if !four && hasWidthDependent attrs.length attrs then "bad-op" else
+  handleReadd four fi (nlPdu fi wd ann attrs)
 
 def handle (ws : List String) : String :=
   match ws with
@@ -183,7 +199,15 @@ def handle (ws : List String) : String :=
     | none => "bad-op"
   | ["nl", f, w, a, t] =>
     match famOf f, strictHex w, strictHex a, strictHex t with
-    | some fi, some wd, some ann, some attrs => handleNl fi wd ann attrs
+    | some fi, some wd, some ann, some attrs => handleNl true fi wd ann attrs
+    | _, _, _, _ => "bad-op"
+  | ["nlx", f, w, t, a] =>
+    match famOf f, strictHex w, strictHex t, strictHex a with
+    | some fi, some wd, some attrs, some ann => if fi.conv then "bad-op" else handleReadd true fi (mkPdu wd attrs ann)
+    | _, _, _, _ => "bad-op"
+  | ["nl2", f, w, a, t] =>
+    match famOf f, strictHex w, strictHex a, strictHex t with
+    | some fi, some wd, some ann, some attrs => handleNl false fi wd ann attrs
     | _, _, _, _ => "bad-op"
   | _ => "bad-op"
 
